@@ -186,9 +186,23 @@ def model_coverage(res):
             "observed_state_pairs": len({(c[0], c[1], c[7], c[8]) for c in obs}), "reachable_state_pairs": len({(c[0], c[1], c[7], c[8]) for c in reach_pairs}),
             "_obs": obs, "_reach": reach_pairs}
 
+def inflate_stream_table():
+    """InflateStreamOps!CallResults tabulated by TLC (spec/gen/GenInflateStream.tla); cached by the hash of the spec"""
+    import hashlib, glob
+    h = hashlib.sha256(open(os.path.join(SPEC, "InflateStreamOps.tla"), "rb").read() + open(os.path.join(SPEC, "gen/GenInflateStream.tla"), "rb").read()).hexdigest()[:16]
+    cache = os.path.join(BUILD, "inflatestream-table-%s.ndjson" % h)
+    if not os.path.exists(cache):
+        os.makedirs(BUILD, exist_ok=True)
+        for old in glob.glob(os.path.join(BUILD, "inflatestream-table-*")): os.remove(old)
+        tmp = cache + ".tmp%d" % os.getpid()
+        tlc("gen/GenInflateStream", env={"VERIF_OUT": tmp}, timeout=1200, xmx="4g")
+        os.rename(tmp, cache)
+    return cache
+
 def judge(module, recs, wd, tag, shards=8, timeout=3000, weight=None):
     """run a trace-validation module over the scenario records, sharded over several TLC JVMs (balanced by input size)"""
     dstab = deflate_stream_table() if module.endswith("TraceDeflate") else None
+    istab = inflate_stream_table() if module.endswith("TraceInflate") else None
     shards = max(1, min(shards, len(recs)))
     w = weight or (lambda r: len(r.get("inp", [])) + 50 * len(r.get("calls", [])) + 200)
     order = sorted(range(len(recs)), key=lambda i: -w(recs[i]))
@@ -200,6 +214,7 @@ def judge(module, recs, wd, tag, shards=8, timeout=3000, weight=None):
         write_ndjson(a, parts[i])
         env = {"VERIF_IN": a, "VERIF_OUT": b}
         if module.endswith("TraceDeflate"): env["VERIF_DSTAB"] = dstab
+        if module.endswith("TraceInflate"): env["VERIF_ISTAB"] = istab
         r = tlc(module, wd=wd, env=env, timeout=timeout, xmx="3g", gc="serial")
         return read_ndjson(b), r["wall"]
     with cf.ThreadPoolExecutor(shards) as ex:
@@ -273,3 +288,14 @@ def key_coverage(mc):
     """(entry state, staged, room, input, flush, eos, level0) keys: reachable in the model vs entered by a recorded call"""
     rk = {t[:7] for t in mc["_reach"]}; ok = {t[:7] for t in mc["_obs"]}
     return {"reachable_keys": len(rk), "observed_keys": len(ok & rk)}
+
+def inflate_conformance(res):
+    """rule M2 summary for evidence: recorded isal_inflate calls not in the tabulated InflateStreamOps relation (drift), and how much of the relation was exercised"""
+    tab = read_ndjson(inflate_stream_table())
+    pairs = sum(len(r["ends"]) for r in tab)
+    obs = set()
+    for r in res.values():
+        for c in r.get("cov", []): obs.add(tuple(c))
+    return {"model": "spec/InflateStreamOps.tla (tabulated by spec/gen/GenInflateStream.tla)", "calls_not_in_model": drift_count(res),
+            "relation_keys": len(tab), "relation_pairs": pairs, "observed_pairs": len(obs), "observed_keys": len({c[:7] for c in obs}),
+            "observed_entry_states": len({c[:4] for c in obs})}
